@@ -4,3 +4,6 @@ import ThriftVerif.Props.C02
 #print axioms Props.C02.read_write_roundtrip
 #print axioms Props.C02.union_write_refuses
 #print axioms Props.C02.presentation_options_irrelevant
+#print axioms Props.C02.read_skips_unknown
+#print axioms Props.C02.read_retag_skips
+#print axioms Props.C02.read_required_missing
